@@ -47,6 +47,8 @@ class C06(InvProp):
         if rng.chance(0.3):
             gen.add_simple_time_controls(rng, scn, rng.irange(1, 2))
         e1.add_faults(rng, scn, p_pause=0.5, p_rescue=0.1)
+        if rng.chance(0.15):
+            scn['edits'] = e1.gen_edits(rng, scn)
         return scn
 
     def oracle(self, scn, out, c):
